@@ -28,6 +28,24 @@ def main():
         msgs.append(f"atom 0 badly prepared, perm {perm}: final occupations (atom order {tuple(r_on.atom_order)}) with "
                     f"reordering {[round(float(x), 5) for x in a]} vs without {[round(float(x), 5) for x in b]}: bad atom 0 "
                     "must stay at 0 and the others must agree")
+    # second scenario: a permutation that is not an involution (perm != inv_perm), one bad atom at a time
+    G = N.grid_matrix()
+    impl6, _, _ = N.make_impl(True, bad_atoms=[False] * 6, matrix=G)
+    perm6 = impl6.qubit_permutation.tolist()
+    inv6 = [perm6.index(k) for k in range(6)]
+    if perm6 != inv6:
+        for bad_atom in (1, 4):
+            bad6 = [k == bad_atom for k in range(6)]
+            _, r_on = N.run(True, bad6, matrix=G)
+            _, r_off = N.run(False, bad6, matrix=G)
+            a, b = torch.as_tensor(r_on.occupation[-1]), torch.as_tensor(r_off.occupation[-1])
+            if a[bad_atom].abs() > 1e-12 or not torch.allclose(a, b, atol=1e-6):
+                msgs.append(f"2x3 grid, atom {bad_atom} badly prepared, perm {perm6} (inverse {inv6}): final occupations with "
+                            f"reordering {[round(float(x), 5) for x in a]} vs without {[round(float(x), 5) for x in b]}: the "
+                            f"bad atom must stay at 0 and the others must agree")
+                break
+    else:
+        print(f"  note: grid permutation {perm6} is an involution; second scenario skipped")
     if msgs:
         print("REPRODUCED: " + msgs[0])
         for m in msgs[1:]:
